@@ -138,7 +138,7 @@ func finish(c *core.Ctx, p *props.Prop, vdir string) int {
 			return false
 		},
 		Floors:      p.Floors,
-		Explanation: p.Explanation,
+		Explanation: p.LevelText + " [rules and engines: " + p.Technique + "]",
 		RuleText:    p.RuleText,
 		Assumptions: p.Assumptions,
 		Trusted:     props.Trusted,
